@@ -64,7 +64,7 @@ def plan(tier, seed):
     for itf in STRUCT_IF:
         groups.append([{"kind": "struct", "calc": itf, "cell": cn, "what": w} for cn in CELLS for w in ("unitcell", "supercell", "displaced")])
     groups.append([{"kind": "pairing", "scenario": s, "cell": cn} for cn in ("NaCl-grouped", "NaClNaO-tri", "interleaved-tri")
-                   for s in ("consistent", "swapped-first-two", "swapped-later", "duplicate", "wrong-cell")])
+                   for s in ("consistent", "swapped-first-two", "swapped-later", "duplicate", "wrong-cell", "last-step-moved", "two-steps-same-geometry")])
     import itertools
 
     from vtk import forcefiles as FF
@@ -480,6 +480,21 @@ def run_pairing(case, seed):
                                      basis="".join("    <v> %.12f %.12f %.12f </v>\n" % tuple(v) for v in c.cell),
                                      pos="".join("    <v> %.12f %.12f %.12f </v>\n" % tuple(pos[i]) for i in perm),
                                      forces="".join("   <v> %.12f %.12f %.12f </v>\n" % tuple(F[idx][i]) for i in perm))
+                if sc in ("last-step-moved", "two-steps-same-geometry") and k == n - 1:
+                    # an output with two ionic steps: what counts (positions, forces) is the last one
+                    calc1 = txt[txt.index(" <calculation>"):txt.index(" </calculation>") + len(" </calculation>\n")]
+                    if sc == "last-step-moved":
+                        pos2 = c.scaled_positions + 0.013
+                        f2 = F[idx] * 0.5
+                    else:
+                        pos2, f2 = c.scaled_positions, F[idx]
+                        calc1 = calc1.replace("".join("   <v> %.12f %.12f %.12f </v>\n" % tuple(F[idx][i]) for i in perm), "".join("   <v> %.12f %.12f %.12f </v>\n" % tuple(7.0 * F[idx][i] + 0.3) for i in perm))
+                    txt2 = VASPRUN % dict(n=len(c), atoms="".join("   <rc><c>%s</c><c>1</c></rc>\n" % c.symbols[i] for i in perm),
+                                          basis="".join("    <v> %.12f %.12f %.12f </v>\n" % tuple(v) for v in c.cell),
+                                          pos="".join("    <v> %.12f %.12f %.12f </v>\n" % tuple(pos2[i]) for i in perm),
+                                          forces="".join("   <v> %.12f %.12f %.12f </v>\n" % tuple(f2[i]) for i in perm))
+                    calc2 = txt2[txt2.index(" <calculation>"):txt2.index(" </calculation>") + len(" </calculation>\n")]
+                    txt = txt[:txt.index(" <calculation>")] + calc1 + calc2 + "</modeling>\n"
                 fn = "vasprun-%03d.xml" % (k + 1)
                 open(fn, "w").write(txt)
                 files.append(fn)
@@ -496,7 +511,7 @@ def run_pairing(case, seed):
                 ret, err = 1, type(e).__name__
             accepted = (err is None) and os.path.exists("FORCE_SETS")
             grouped = list(ph.supercell.symbols) == [ph.supercell.symbols[i] for i in stable_grouping(ph.supercell.symbols)]
-            if sc == "consistent":
+            if sc in ("consistent", "two-steps-same-geometry"):
                 if not accepted:
                     if not grouped:
                         # "pairs forces with the right atoms or refuses": refusing species-regrouped output is allowed
